@@ -626,6 +626,41 @@ func streamFallback(calls []initCall, got []*ref.T, at int, msg string) core.Ver
 		}
 		return core.Fail("%s; and %s", msg, m)
 	}
+	// independence ACROSS calls: replay the whole sequence many times and pool, for the call in question, its
+	// first and its last element - something left over from the previous call (a spare variate, a cached
+	// draw) lands exactly there, once per replay, and is invisible in a large sample of one repeated call
+	if len(calls) > 1 && len(got[at].V) > 0 {
+		pool := func() (first, last []float64, err error) {
+			for r := 0; r < 1024; r++ {
+				for j, cj := range calls {
+					t, _, e := cj.run()
+					if e != nil {
+						return nil, nil, e
+					}
+					if j == at {
+						v := rt.Read(t).V
+						first, last = append(first, v[0]), append(last, v[len(v)-1])
+					}
+				}
+			}
+			return first, last, nil
+		}
+		f1, l1, err := pool()
+		if err != nil {
+			return core.Fail("%s; and replaying the sequence fails: %v", msg, err)
+		}
+		for pi, smp := range [][]float64{f1, l1} {
+			if m := distStats(kind, a, b, smp); m != "" {
+				f2, l2, err := pool() // must repeat on an independent second pool
+				if err != nil {
+					return core.Fail("%s; and replaying the sequence fails: %v", msg, err)
+				}
+				if m2 := distStats(kind, a, b, [][]float64{f2, l2}[pi]); m2 != "" {
+					return core.Fail("%s; and over 1024 replays of the call sequence the %s element of this call does not follow the configured distribution (%s): it depends on the calls made before", msg, []string{"first", "last"}[pi], m)
+				}
+			}
+		}
+	}
 	return core.Verdict{OK: true, Skip: true, Detail: "stream oracle abstains: " + msg}
 }
 
@@ -932,8 +967,9 @@ func distStats(kind string, a, b float64, x []float64) string {
 	} else {
 		em, es = a, b
 	}
-	if math.Abs(mean-em) > 6*es/math.Sqrt(4096) || math.Abs(sd-es) > 6*es/math.Sqrt(2*4096)*1.5 {
-		return fmt.Sprintf("sample moments of 4096 elements (mean %v, sd %v) are off the configured (mean %v, sd %v)", mean, sd, em, es)
+	nn := float64(len(x))
+	if math.Abs(mean-em) > 6*es/math.Sqrt(nn) || math.Abs(sd-es) > 6*es/math.Sqrt(2*nn)*1.5 {
+		return fmt.Sprintf("sample moments of %d elements (mean %v, sd %v) are off the configured (mean %v, sd %v)", len(x), mean, sd, em, es)
 	}
 	// shape of the distribution: probability mass of a few windows, 6 sigma of
 	// the binomial count (a truncated or otherwise reshaped law has the right
@@ -968,7 +1004,7 @@ func distStats(kind string, a, b float64, x []float64) string {
 		}
 		n := float64(len(x))
 		if dev := 6 * math.Sqrt(n*w.p*(1-w.p)); math.Abs(cnt-n*w.p) > dev {
-			return fmt.Sprintf("%v of 4096 draws fall in the window '%s' (expected %.0f +- %.0f): not the configured %s distribution", cnt, w.name, n*w.p, dev, map[string]string{"N": "normal", "U": "uniform"}[kind])
+			return fmt.Sprintf("%v of the draws fall in the window '%s' (expected %.0f +- %.0f): not the configured %s distribution", cnt, w.name, n*w.p, dev, map[string]string{"N": "normal", "U": "uniform"}[kind])
 		}
 	}
 	return ""
